@@ -526,9 +526,9 @@ fn gen_r3(tier: &str, seed: u64, out: &mut dyn FnMut(String)) {
         let n: usize = s.iter().product();
         let many_rows = n / s[s.len() - 1] > 1000;
         if s[0] > 20000 && !thorough { continue; }            // 70000 rows: the crate splits rows quadratically (thorough tier only)
-        let k = if thorough { 4 } else if n <= 8200 || n > 100000 { 2 } else if s.len() == 1 && n > 20000 { 1 } else if n > 16500 { 1 } else { 2 };
+        let k = if s[0] > 20000 { 1 } else if thorough { 4 } else if n <= 8200 || n > 100000 { 2 } else if s.len() == 1 && n > 20000 { 1 } else if n > 16500 { 1 } else { 2 };
         for c in 0..k { let (prec, alt) = COMBOS[(c + if k == 1 { i % 2 } else { 0 }) % 4]; out(disp_line("i32", s, prec, alt)); }
-        let others = if thorough { 3 } else { 1 };
+        let others = if thorough && s[0] <= 20000 { 3 } else { 1 };       // 70000 rows cost 12 s per case in the crate: two cases only
         for j in 0..others {
             let ty = if !many_rows && n <= 20100 && (i + j) % 3 == 0 { heap_types[(i + j) % 4] } else { copy_types[(i * 3 + j) % 10] };
             let (prec, alt) = COMBOS[(i + j + 1) % 4];
@@ -857,5 +857,5 @@ fn nontrivial(op: &str, args: &[&str]) -> bool {
 
 fn main() {
     harness_main(Spec { prop: "C18", gen, exec, nontrivial, hang_secs: 30,
-        rule: "compiled programs: every literal of c18_gen (all shapes rank<=4 len<=3 for i32; rank<=4 len<=2 + some 3/4 for f64,bool,char,String,Tuple2,Tuple3,List; u8,i8,i16,u16,u32,i64,u64,usize,isize,f32 and f64 specials with the extreme values of the type on 12 shapes each; axis lengths 7..17 in every position, 256..1200-element literals; multi-argument and flat forms; separator/escape element texts; tuple/list String components with blanks and empty strings) + constructor/flat/single macros next to their functions; run-time: front-end macros on Debug texts of all shapes rank<=4 (len<=2 quick, <=3 thorough) + seeded random rank<=5 len<=4, exhaustive malformed texts over small alphabets; Display on every shape rank<=4 len<=3 (+empty, rank 0) x 16 element types (i32,f64,bool,char,String,Tuple2,List,u8,i8,i64,u64,usize,f32, f64 specials, Tuple3<String,..>, List<String>) x precision none/0/2 x plain/alternate, each through BOTH receivers (Array and the PrintableResult wrapper of Result<Array,_>, Ok and Err side), + big_shapes() and rows of 999..2000 elements / more than 1000 rows / totals above 1000 from short rows, + zero_shapes(), + seeded shapes with one axis up to 1100; Tuple/List text forms exhaustively over a 7-letter alphabet + components with blanks / empty / 300 characters + lists of 17/300/1030 items + typed round trips (9 Tuple2, 7 Tuple3, 13 List instantiations over the value classes of every primitive type); front-end macros also on big_shapes() up to 320 (thorough 1300) elements, [1030] and zero_shapes(). distinct = distinct case lines; non-trivial = >=2 axes longer than 1 (lit, disp), text of >= 8 characters (rt, shape), any argument of >= 2 characters (text forms)" });
+        rule: "compiled programs: every literal of c18_gen (all shapes rank<=4 len<=3 for i32; rank<=4 len<=2 + some 3/4 for f64,bool,char,String,Tuple2,Tuple3,List; u8,i8,i16,u16,u32,i64,u64,usize,isize,f32 and f64 specials with the extreme values of the type on 12 shapes each; axis lengths 7..17 in every position, 256..1200-element literals; multi-argument and flat forms; separator/escape element texts; tuple/list String components with blanks and empty strings) + constructor/flat/single macros next to their functions; run-time: front-end macros on Debug texts of all shapes rank<=4 (len<=2 quick, <=3 thorough) + seeded random rank<=5 len<=4, exhaustive malformed texts over small alphabets; Display on every shape rank<=4 len<=3 (+empty, rank 0) x 16 element types (i32,f64,bool,char,String,Tuple2,List,u8,i8,i64,u64,usize,f32, f64 specials, Tuple3<String,..>, List<String>) x precision none/0/2 x plain/alternate, each through BOTH receivers (Array and the PrintableResult wrapper of Result<Array,_>, Ok and Err side), + big_shapes() and rows of 999..2000 elements / more than 1000 rows / totals above 1000 from short rows, + zero_shapes(), + seeded shapes with one axis up to 1100; Tuple/List text forms exhaustively over a 7-letter alphabet + components with blanks / empty / 300 characters + lists of 17/300/1030 items + typed round trips (9 Tuple2, 7 Tuple3, 13 List instantiations over the value classes of every primitive type); front-end macros also on big_shapes() up to 320 (thorough 1300) elements, [1030] and zero_shapes(). Part-2 streams: precisions 0..20, 31..33, 63..65, 100, 127..129, 200, 253..258, 300, 511..513, 1000, 1023, 1024, 1074, 1075, 1100, 4095, 4096 on f64 / f64 specials / f32 / Tuple2 / Tuple3 arrays plus one rotating further type, 1/3/5/255/256/300/1074 on all 18 element types, 32767/32768/65535 on float arrays, plain and pretty, both receivers; rows of 8191, 8192, 8193, 8194, 10000, 16384, 16385, 24577, 33000, 70000 elements, [2,8193], [2,10000], [1,1,8193], [8193,1], [8193,2], [3,2,20011] and huge_shapes() (the model answers itself: linear), [70000,2] thorough only; ranks 5..8 for the text form (18 types) and the run-time front ends; every printable ASCII character as char element, one-character String, tuple component and list item (charx / Stringx display subjects, rt char / rt string, t2/t3/list show and round trips, typed round trips for non-separator characters); seq lines = cases back to back on one thread (an array, then the same shape with its elements transposed / reversed / rotated / swapped, then the array again, 12 shapes x 18 types; collision_shape_pairs() in both orders; one shape through 12 element types; a refused text followed by a valid one for every front end, array_parse_shape!, the tuple / list parsers and the Err side of the wrapper); in exec every case A is re-run after the next case B, every array is rendered twice and once more after being rebuilt by collect + reshape + clone_from; compiled literals of ranks 5..8 and of every letter / digit / punctuation character. distinct = distinct case lines; non-trivial = >=2 axes longer than 1 (lit, disp), text of >= 8 characters (rt, shape), any argument of >= 2 characters (text forms)" });
 }
